@@ -116,3 +116,16 @@ pub struct Holder {
 pub fn show(h: &Holder) -> String {
     format!("{:?}", h)
 }
+
+// C10.1 controls for "collect into Vec then sort"
+pub fn sorted_by_map_key(m: &HashMap<String, u32>) -> Vec<(&String, &u32)> {
+    let mut v: Vec<_> = m.iter().collect();
+    v.sort_by_key(|(k, _)| (*k).clone()); // accepted: keyed by the unique map key
+    v
+}
+
+pub fn sorted_by_value(m: &HashMap<String, u32>) -> Vec<(&String, &u32)> {
+    let mut v: Vec<_> = m.iter().collect();
+    v.sort_by_key(|(_, val)| **val); // flagged: ties keep hash order
+    v
+}
